@@ -540,7 +540,8 @@ class WorkerInterp:
             if any(isinstance(n, ast.Name) and n.id in tainted
                    for n in ast.walk(expr)):
                 cands, _ = self.program.resolve_call(self.func, expr)
-                if cands and all(_returns_validated(c) for c in cands):
+                if cands and all(_returns_validated(c, self.program)
+                                 for c in cands):
                     return False
                 return True
             return False
@@ -646,6 +647,19 @@ class WorkerInterp:
                 return ('tainted',)
             return ('unknown',)
         if isinstance(expr, ast.Call) and call_name(expr) == 'TaskStatus':
+            return ('validated',)
+        if isinstance(expr, ast.Call) and expr is not self.wrk.do_call and \
+                any(isinstance(n, ast.Name) and n.id in self.tainted_names
+                    for a in expr.args for n in ast.walk(a)):
+            # the result of a validating helper applied to the task result
+            cands, _ = self.program.resolve_call(self.func, expr)
+            if cands and all(_returns_validated(c, self.program)
+                             for c in cands):
+                return ('validated',)
+        if isinstance(expr, (ast.Attribute, ast.Subscript)) and isinstance(
+                expr.value, ast.Name) and state.vals.get(
+                    expr.value.id) == ('validated',):
+            # a field of the value object built by a validating helper
             return ('validated',)
         if isinstance(expr, ast.Dict):
             return ('mapping',)
@@ -875,7 +889,7 @@ def _is_validation(call):
     return call_name(call) in ('isinstance', 'len')
 
 
-def _returns_validated(func):
+def _returns_validated(func, program=None, depth=0):
     '''A helper whose every return is a pair (mapping-checked, TaskStatus
     checked) -- recognised only in the simplest form: it contains
     isinstance tests against TaskStatus and a mapping type, or returns
@@ -891,7 +905,21 @@ def _returns_validated(func):
                 has_map = True
         if isinstance(node, ast.Call) and call_name(node) == 'TaskStatus':
             has_status = True
-    return has_status and has_map
+    if has_status and has_map:
+        return True
+    # the validation may sit one or two resolved calls further (a helper
+    # that delegates to a constructor-like classmethod of a value class)
+    if program is not None and depth < 2:
+        for call in calls_in(func.node):
+            if not any(isinstance(n, ast.Name) and n.id in
+                       {a.arg for a in func.node.args.args}
+                       for a_ in call.args for n in ast.walk(a_)):
+                continue
+            cands, _ = program.resolve_call(func, call)
+            if cands and all(c.key != func.key and _returns_validated(
+                    c, program, depth + 1) for c in cands):
+                return True
+    return False
 
 
 # --------------------------------------------------------------- rules ---
@@ -1690,9 +1718,11 @@ def check_backend_owned(ctx):
     tasks and block in queue.join()."""
     from ..loader import ClassInfo
     program = ctx.program
+    # a backend is a class of the backends package that implements the
+    # scheduling interface (value classes next to it are not backends)
     backends = [c for c in program.all_classes()
                 if c.module.name.startswith(BACKENDS) and
-                c.parent_cls is None]
+                c.parent_cls is None and 'execute_tasks' in c.methods]
     ctx.floor('BACKEND-OWNED', len(backends), 1, 'backend classes')
     names_ = {c.name for c in backends}
     n = 0
